@@ -6,6 +6,9 @@ set -u
 D="$1"
 V=/verif
 cd "$V/coq/$D" || exit 2
+mkdir -p "$V/build"
+exec 9>"$V/build/.domain-$D.lock"
+flock 9
 [ -f Makefile ] && [ Makefile -nt _CoqProject ] || coq_makefile -f _CoqProject -o Makefile >/dev/null 2>&1
 rc=0
 timeout 3000 make -k -j16 >build.log 2>&1 || rc=1
